@@ -407,6 +407,12 @@ pub fn corpus_c05(tier: &str, rng: &mut Rng) -> Vec<Case> {
         place_payload(p, &mut out);
     }
     out.extend(shift_math_family());
+    // unchecked blocks outside contract member functions: free functions, modifiers, constructors, receive / fallback
+    let idc = Some(Det::IncrementDecrement);
+    out.push(file_case(idc, "prefix-in-unchecked-in-free-function", Near, "file", format!("{}function fr(uint i) pure returns (uint) {{\n    unchecked {{ ++i; }}\n    return i;\n}}\n", H)));
+    out.push(file_case(idc, "prefix-in-unchecked-in-modifier", Near, "file", format!("{}contract A {{\n    uint n;\n    modifier m() {{\n        unchecked {{ --n; }}\n        _;\n    }}\n}}\n", H)));
+    out.push(file_case(idc, "prefix-in-unchecked-in-constructor", Near, "file", format!("{}contract A {{\n    uint n;\n    constructor() {{\n        unchecked {{ ++n; }}\n    }}\n    receive() external payable {{\n        unchecked {{ --n; }}\n    }}\n}}\n", H)));
+    out.push(file_case(idc, "postfix-in-free-function", Canon, "file", format!("{}function fr(uint i) pure returns (uint) {{\n    i++;\n    return i;\n}}\n", H)));
     let n = if tier == "thorough" { 250 } else { 12 };
     for p in C05_PAYLOADS {
         place_payload_nested(p, rng, n, &mut out);
@@ -1688,6 +1694,11 @@ pub fn same_name_variable_files() -> Vec<(String, String)> {
     out.push(("inheritance-without-cross-reference:packing".into(), format!("{}contract Base {{\n    uint128 a;\n    function g() public view returns (uint128) {{ return a; }}\n}}\ncontract Derived is Base {{\n    uint256 t;\n    uint128 p;\n    function k() public view returns (uint256) {{ return t + p; }}\n}}\n", h)));
     out.push(("inheritance-without-cross-reference:packing-base-last".into(), format!("{}contract Derived is Base {{\n    uint256 t;\n    uint128 p;\n    function k() public view returns (uint256) {{ return t + p; }}\n}}\ncontract Base {{\n    uint128 a;\n    uint256 b;\n    uint128 c;\n    function g() public view returns (uint256) {{ return a + b + c; }}\n}}\n", h)));
     out.push(("inheritance-without-cross-reference:constructors".into(), format!("{}contract Base {{\n    uint v;\n    constructor() {{ v = 1; }}\n    function g() public view returns (uint) {{ return v; }}\n}}\ncontract Derived is Base {{\n    uint w;\n    constructor() {{ w = 2; }}\n    function k() public view returns (uint) {{ return w; }}\n}}\n", h)));
+    // a FUNCTION named like another top-level item, and a state variable whose TYPE is another top-level item
+    out.push(("function-named-like-another-contract".into(), format!("{}contract A {{\n    function B() public {{}}\n    constructor() {{}}\n}}\ncontract B {{\n    constructor() {{}}\n    function g() public {{}}\n}}\n", h)));
+    out.push(("function-named-like-an-earlier-contract".into(), format!("{}contract B {{\n    constructor() {{}}\n    function g() public {{}}\n}}\ncontract A {{\n    function B() public {{}}\n    constructor() {{}}\n}}\n", h)));
+    out.push(("state-variable-typed-with-another-item".into(), format!("{}interface T {{\n    function p() external;\n}}\ncontract C {{\n    uint96 a;\n    T t;\n    uint160 b;\n}}\n", h)));
+    out.push(("state-variable-typed-with-a-later-contract".into(), format!("{}contract C {{\n    uint96 a;\n    T t;\n    uint160 b;\n}}\ncontract T {{\n    uint8 q;\n}}\n", h)));
     // control: different names -- no interference possible
     out.push(("control-different-names".into(), format!("{}{}{}", h, reader("A", "x"), writer("B", "z", "@ = 1"))));
     out
